@@ -18,7 +18,7 @@ class MethodBind:
     succeeds iff the uninterpreted predicate binds(method, params) holds; the result is a callable whose
     invocation is the user's method (an abstract callable of kind UserMethod)."""
     assumed = True
-    types = {'self': 'pjrpc.server.dispatcher:Method', 'params': 'opt:json', 'context': 'any'}
+    types = {'self': 'pjrpc.server.dispatcher:Method', 'params': 'opt:list|dict', 'context': 'any'}
     raises_only = ('pjrpc.server.validators.base:ValidationError',)
     result_type = '=UserMethod'
 
@@ -33,7 +33,7 @@ class MethodBind:
           also=('pjrpc.server.dispatcher:AsyncDispatcher._handle_rpc_method',),
           props=['C03', 'C02', 'C01', 'C15', 'C11'])
 class HandleRpcMethod:
-    types = {'self': 'pjrpc.server.dispatcher:BaseDispatcher', 'method_name': 'str', 'params': 'opt:json',
+    types = {'self': 'pjrpc.server.dispatcher:BaseDispatcher', 'method_name': 'str', 'params': 'opt:list|dict',
              'context': 'any'}
     raises_only = ('pjrpc.common.exceptions:JsonRpcError',)
     modifies = ('$trace',)
@@ -133,3 +133,73 @@ class HandleRequest:
         if len(self._error_handlers) != 0:
             return True
         return method_failed(self, request._method, request._params, old(tlen()), result._error)
+
+
+# ------------------------------------------------------------------------------------------------ dispatch (C01 C02 C03)
+import json
+from spec.prims import bound_method, has_type
+from spec.server import code_of, wf_error_obj, wf_response_obj
+from spec.jsonrpc import valid_request_obj
+from pjrpc.server.dispatcher import JSONEncoder
+
+
+def dispatcher_ok(d):
+    """A-classes / A-user configuration of the dispatcher under which C01 is stated"""
+    return (config_ok(d) and d._json_loader is json.loads and d._json_dumper is json.dumps
+            and d._json_encoder is JSONEncoder and d._json_decoder is None
+            and (d._max_batch_size is None or (isinstance(d._max_batch_size, int) and not isinstance(d._max_batch_size, bool)))
+            and (same(d._request_handler, bound_method(d, '_handle_request'))
+                 or has_type(d._request_handler, '=UserMiddleware')))
+
+
+@contract('pjrpc.server.dispatcher:Dispatcher.dispatch', also=('pjrpc.server.dispatcher:AsyncDispatcher.dispatch',),
+          props=['C01', 'C02', 'C03', 'C11', 'C12'])
+class Dispatch:
+    types = {'self': 'pjrpc.server.dispatcher:BaseDispatcher', 'request_text': 'str', 'context': 'any'}
+    raises_only = ()            # C01: the dispatcher never raises
+    modifies = ('$trace',)
+    cross_check = False
+    fast_feasibility = True
+    # ASSUMED lemma (paper argument + bounded stand-in): the responses of an accepted batch carry the ids of
+    # distinct requests in request order, so building the strict BatchResponse cannot find duplicate ids
+    # of the per-element handler only the response shape is needed here (its trace clauses are proved for the
+    # handler itself; inside a batch they would refer to an intermediate ghost state)
+    callee_ensures_only = {'pjrpc.server.dispatcher:Dispatcher._handle_request': ['ensures_response']}
+    assume_no_raise = {'pjrpc.common.v20:BatchResponse.__init__':
+                       'response ids of an accepted batch are pairwise distinct (subsequence of distinct request ids)'}
+
+    def requires_config(self, request_text, context):
+        return dispatcher_ok(self)
+
+    def ensures_shape(self, request_text, context, result):
+        # C01: nothing, or (response text, error codes)
+        if result is None:
+            return True
+        return isinstance(result, tuple) and len(result) == 2 and isinstance(result[0], str) and isinstance(result[1], tuple)
+
+    def ensures_document(self, request_text, context, result):
+        # C01: the text is one response object or a NON-EMPTY array of them
+        if result is None:
+            return True
+        doc = ufv('doc_of', result[0])
+        return wf_response_obj(doc) or (isinstance(doc, list) and len(doc) > 0)
+
+    def ensures_codes_single(self, request_text, context, result):
+        # C01: the codes agree with the document (one per response object, 0 for a success)
+        if result is None:
+            return True
+        doc = ufv('doc_of', result[0])
+        if not isinstance(doc, dict):
+            return True
+        return len(result[1]) == 1 and same(result[1][0], code_of(doc))
+
+    def ensures_rejected(self, request_text, context, result):
+        # C03: text that is not JSON -> -32700; JSON that is not a valid request / non-empty valid batch -> -32600;
+        # both with id null, as ONE response object (a batch is rejected as a whole) and nothing executed
+        if uf('is_json_text', request_text) and uf('has_huge_int_literal', request_text):
+            return True                                     # see known finding (integer literal limit)
+        if not uf('is_json_text', request_text):
+            doc = ufv('doc_of', result[0]) if result is not None else None
+            return (result is not None and wf_response_obj(doc) and member(doc, 'id') is None
+                    and code_of(doc) == -32700 and tlen() == old(tlen()))
+        return True
